@@ -6,31 +6,31 @@ VERIF = os.path.dirname(os.path.dirname(os.path.abspath(__file__)))
 PBT = 'property-based testing (rapidcheck)'
 CHECKS = {
  'C01': dict(engine='units', technique=PBT + ': generated values x enumerated unit pairs against an exact symbol-expansion oracle (__float128)',
-   text='Every ordered pair of declared units of all 37 unit types and 3 numeric types is enumerated; the value is generated (all binades, signs, zero, edges, temperature offsets). Each conversion (run-time dispatch and compile-time) is compared with (x*F_from+O_from-O_to)/F_to, F and O obtained by expanding the unit\'s own symbol with an independent lexicon, within 8 ulp. Exploration: absence of a failing value is sampled, the unit/pair/type quantifier is exhausted.',
+   text='Every ordered pair of declared units of all 37 unit types and 3 numeric types is enumerated; the value is generated (all binades, signs, zero, edges, temperature offsets). Each conversion (run-time dispatch, and ConvertStatically instantiated for ALL 14232 ordered pairs per numeric type) is compared with (x*F_from+O_from-O_to)/F_to, F and O obtained by expanding the unit\'s own symbol with an independent lexicon, within 8 ulp. Exploration: absence of a failing value is sampled, the unit/pair/type quantifier is exhausted.',
    note='Trusted: the unit lexicon (DESIGN Appendix A), __float128 arithmetic, the scanner reading enumerator names from the enum declarations.', ref='5 C01'),
  'C02': dict(engine='qty+units', technique=PBT + ': differential check of every conversion entry point against the scalar conversion; round trips',
-   text='For every dimensional quantity type x unit x numeric type: Q(v,u), Create<u> (3 overloads), Value(u), StaticValue<u>, the numbers inside Print/JSON/XML/YAML(u), the container overloads (std::array<1..9>, std::vector, PlanarVector, Vector, SymmetricDyad, Dyad; copying, in-place, static) agree slot by slot with the plain scalar Convert within 1 ulp; read-back in the same unit within 2 ulp; Convert(x,u,u) bit-exact for the standard unit; copying forms leave their argument unchanged.',
+   text='For every dimensional quantity type x unit x numeric type: Q(v,u), Create<u> (3 overloads), Value(u), StaticValue<u>, the numbers inside Print/JSON/XML/YAML(u), the container overloads (std::array<1..9>, std::vector, PlanarVector, Vector, SymmetricDyad, Dyad; copying, in-place, compile-time - the latter also between two non-standard units) agree slot by slot with the plain scalar Convert within 1 ulp; read-back in the same unit within 2 ulp; Convert(x,u,u) bit-exact for the standard unit; copying forms leave their argument unchanged.',
    note='Trusted: the scalar Convert as reference (validated by C01). Reading of "identity": within the rounding of the two legs for non-standard units.', ref='5 C02'),
  'C03': dict(engine='rel', technique=PBT + ': metamorphic relation (power-of-two rescaling of the seven base units) over a SFINAE-enumerated relation registry',
-   text='Every operator (781 instances incl. number variants), compound assignment, constructor (316) and member relation (162) x 3 numeric types is found by SFINAE / header scan and enumerated; operands and an independent rescaling of the base units are generated; f(s(A)a, s(B)b) must equal s(C) f(a,b) with s from the declared dimension sets (exact, 2 ulp allowance). Type level: result dimensions = sum/difference/equal, exhaustive.',
+   text='Every operator (781 instances incl. number variants), compound assignment, constructor (316) and member relation (162) x 3 numeric types is found by SFINAE / header scan and enumerated; operands and an independent rescaling of the base units are generated; f(s(A)a, s(B)b) must equal s(C) f(a,b) with s from the declared dimension sets (exact, 2 ulp allowance); long double operands also beyond the range of double; an inf / NaN / 0 result from finite operands is re-examined in far-rescaled units (a representable result that the library loses is a violation). Type level: result dimensions = sum/difference/equal, exhaustive.',
    note='Trusted: the declared dimension sets (validated against the unit symbols by C06). Operand windows keep every intermediate in the normal range.', ref='5 C03'),
  'C04': dict(engine='rel', technique=PBT + ': reference model (IEEE operation on stored values), stateful histories of compound assignments, differential constructor/operator twins',
    text='Every operator instance is compared bit for bit with the IEEE operation of the same numeric type on the stored components in written order; contractions against the textbook formula; compound assignments against pure operators; histories of 1..24 interleaved +=,-=,*=,/= against a plain array model and the pure-operator chain after every step; constructors against their operator twins; std:: overloads of dimensionless scalars against std:: on the stored number.',
    note='Trusted: the harness is compiled without -ffast-math so that engine and library arithmetic are the same IEEE operations.', ref='5 C04'),
  'C05': dict(engine='rel', technique=PBT + ': round trip relation o inverse relation with measured conditioning',
-   text='Inverse pairs are derived from the declared signatures (constructors/members with 1-4 arguments, operator pairs by algebra, planar embedding): about 2000 pairs per numeric type. A(C(a,b..),b..) must return a within 4(1+kappa) ulp, kappa measured per case by one-ulp perturbations; the planar embedding is bit-exact.',
+   text='Inverse pairs are derived from the declared signatures (constructors/members with 1-4 arguments, operator pairs by algebra, planar embedding): about 2000 pairs per numeric type. A(C(a,b..),b..) must return a within 4(1+kappa) ulp, kappa measured per case by one-ulp perturbations; the planar embedding is bit-exact. A non-finite forward or inverse result from finite operands is re-examined in rescaled base units (dimensional homogeneity as oracle): if the result is representable there, the library lost it.',
    note='"A few ulps" is read relative to the measured conditioning of the composed map (DESIGN 4.6).', ref='5 C05'),
  'C06': dict(engine='symx+dims', technique='exhaustive enumeration against the symbol-expansion oracle + ' + PBT + ' for Dimensions printing/ordering/hash',
    text='Exhaustive: all 514 unit symbols expand (lexicon) to the dimension set their unit type declares; all 92 quantity types report the set of their unit type in 3 numeric types. Generated: Dimensions objects over the box [-1,1]^7 (all ordered pairs) and random tuples in [-9,9]^7 against a reference printer (Print, JSON, XML, YAML, stream), lexicographic order, hash and container oracle.',
    note='Trusted: the unit lexicon.', ref='5 C06'),
- 'C07': dict(engine='symx+units', technique='exhaustive enumeration with exact rational arithmetic (tables) + ' + PBT + ' on generated values through the library\'s own conversions (value-level coherence)',
-   text='All 4 systems x 37 unit types: the consistent unit\'s exact SI magnitude (Fractions) equals the product of the system base units (read from the system\'s own abbreviation) raised to the type\'s dimension exponents; the standard system gives the standard units; RelatedUnitSystem for all 514 units equals the stated function of the forward table. Value level: for every unit type x numeric type x system a generated value in the consistent unit converts to/from the standard unit by exactly the product of the base units (4 ulp).',
+ 'C07': dict(engine='symx+units', technique='exhaustive enumeration with exact rational arithmetic (tables) + ' + PBT + ' on generated values through the library\'s own conversions (value-level coherence) + stateful lookup histories against the single-lookup table',
+   text='All 4 systems x 37 unit types: the consistent unit\'s exact SI magnitude (Fractions) equals the product of the system base units (read from the system\'s own abbreviation) raised to the type\'s dimension exponents; the standard system gives the standard units; RelatedUnitSystem for all 514 units equals the stated function of the forward table. Value level: for every unit type x numeric type x system a generated value in the consistent unit converts to/from the standard unit by exactly the product of the base units (4 ulp). Histories: 3..14 interleaved RelatedUnitSystem / ConsistentUnit lookups on one or two unit types (repeats, hit after miss) return what a single lookup in a fresh process returns.',
    note='Trusted: the unit lexicon. The table space is finite and is enumerated completely; the value quantifier is sampled.', ref='5 C07 and 0.2'),
  'C08': dict(engine='symx+enums+fuzz', technique='exhaustive enumeration against the lexicon + ' + PBT + ' string mutation + libFuzzer on ParseEnumeration',
    text='Exhaustive: every enumerator of the 39 enum declarations has a unique abbreviation, streams as it, parses back, has both conversion rows; each of ~2050 accepted spellings denotes (lexicon, exact) the magnitude of the enumerator it parses to. Generated: single-edit mutations of spellings, random strings and (thorough) coverage-guided bytes must parse to nothing unless they are keys.',
    note='Trusted: the unit lexicon; ambiguous atoms (lb, C, NM, as ...) accept any alternative of matching dimensions.', ref='5 C08'),
  'C09': dict(engine='math', technique=PBT + ' + exhaustive integer grids against index-notation references',
-   text='71 operations of the four vector/tensor types x 3 numeric types: exhaustive small-integer grids (bit-exact), random integers in [-64,64] (bit-exact), reals over +-40 binades (4 ulp of the sum of |terms|), inverse presence = exact determinant non-zero, A*A^-1 = I within 16 cond eps, symmetric/planar types against their embeddings.',
+   text='71 operations of the four vector/tensor types x 3 numeric types: exhaustive small-integer grids (bit-exact), random integers in [-64,64] (bit-exact), reals over +-40 binades (4 ulp of the sum of |terms|), inverse presence = exact determinant non-zero, A*A^-1 = I within 16 cond eps, symmetric/planar types against their embeddings (incl. presence of the inverse for exactly singular real tensors); in-place scaling by a reference to an own component.',
    note='Trusted: textbook formulas evaluated in __float128.', ref='5 C09'),
  'C10': dict(engine='rel+dir', technique=PBT + ': validity predicate (unit length, parallel) and metamorphic rescaling',
    text='Every construction path of Direction/PlanarDirection and all 17 vector quantity types: unit length within 4 ulp, components within 4 ulp of v_i/|v|, bit-invariant under power-of-two rescaling, zero -> +0; Magnitude type and value (3 ulp), typed component accessors bit-equal, magnitude x direction rebuilds within 4 ulp.',
@@ -38,11 +38,11 @@ CHECKS = {
  'C11': dict(engine='rel+dir', technique=PBT + ': generator concentrated on (anti)parallel pairs; reference atan2 in __float128',
    text='The 8 angle kernels (constructor and member form) and all quantity-level angle relations x 3 numeric types: never NaN, in [0, pi], symmetric, independent of lengths (bit-exact for powers of two), within 6 sqrt(eps) of atan2(|a x b|, a.b).',
    note='Arguments are non-zero and inside the non-overflowing range.', ref='5 C11'),
- 'C12': dict(engine='model', technique=PBT + ': reference model (closed-form isotropic elasticity in __float128), round trips with measured conditioning, differential virtual/direct and overload checks',
-   text='20 constructors x 7 accessors x 3 numeric types; materials over +-40 binades of stiffness and nu in [0, 0.5) incl. nu = 0 and nu -> 0.5; identities within 4 ulp, rebuild from every reported pair within 8(1+kappa) ulp, stress formula, strain inverse, ignored arguments, zero results, overload agreement, virtual = direct.',
+ 'C12': dict(engine='model', technique=PBT + ': reference model (closed-form isotropic elasticity in __float128), round trips with measured conditioning, differential virtual/direct and overload checks, stateful histories on one model object against a fresh model',
+   text='20 constructors x 7 accessors x 3 numeric types; materials over +-40 binades of stiffness and nu in [0, 0.5) incl. nu = 0 and nu -> 0.5; identities within 4 ulp, rebuild from every reported pair within 8(1+kappa) ulp, stress formula, strain inverse, ignored arguments, zero results, overload agreement, virtual = direct. Histories of queries, copy-/move-assignments and copy-/move-constructions on one object: every answer bit-identical to a freshly constructed model of the current material.',
    note='(lambda, nu) at nu = 0 excluded (singular parametrisation).', ref='5 C12'),
- 'C13': dict(engine='model', technique=PBT + ': reference model, round trip, linearity (metamorphic)',
-   text='Both fluid classes x 3 model types x 3 overloads, direct and virtual: sigma = 2 mu D (+ mu_b tr D I) within 6 ulp of the sum of |terms|, inverse within 8(1+kappa) ulp, strain arguments ignored, zero results exact, mu-only constructor gives +0 bulk viscosity, linearity.',
+ 'C13': dict(engine='model', technique=PBT + ': reference model, round trip, linearity (metamorphic), stateful histories on one model object against a fresh model',
+   text='Both fluid classes x 3 model types x 3 overloads, direct and virtual: sigma = 2 mu D (+ mu_b tr D I) within 6 ulp of the sum of |terms|, inverse within 8(1+kappa) ulp, strain arguments ignored, zero results exact, mu-only constructor gives +0 bulk viscosity, linearity; histories of queries and (re)assignments on one object answer like a fresh model of the current viscosities.',
    note='-', ref='5 C13'),
  'C14': dict(engine='qty+math+model+dims', technique=PBT + ': lexicographic reference order, hash/equality, std::set/unordered_set model',
    text='All 92 quantity types, the 4 vector/tensor types, Dimensions and the 3 model classes x 3 numeric types: six operators equal the lexicographic IEEE comparison of the stored components on triples with forced ties, +-0, +-inf; equal => equal hash; collections in ordered and unordered containers.',
